@@ -378,8 +378,12 @@ impl LpgStore {
             index[label_id as usize].insert(id, ());
         }
 
+        #[cfg(grafeo_verif)]
+        grafeo_common::verif::yield_point("store.create_node.after_label_index");
         // Store node's labels
         self.node_labels.write().insert(id, node_label_set);
+        #[cfg(grafeo_verif)]
+        grafeo_common::verif::yield_point("store.create_node.after_node_labels");
 
         // Create version chain with initial version
         let chain = VersionChain::with_initial(record, epoch, tx_id);
@@ -697,6 +701,8 @@ impl LpgStore {
             drop(nodes); // Release lock before removing properties
             drop(index);
             drop(node_labels);
+            #[cfg(grafeo_verif)]
+            grafeo_common::verif::yield_point("store.delete_node.after_release");
             // Property indexes must forget the node too (needs the old values)
             let indexed_keys: Vec<PropertyKey> =
                 self.property_indexes.read().keys().cloned().collect();
@@ -861,6 +867,8 @@ impl LpgStore {
 
         // Update property index before setting the property (needs to read old value)
         self.update_property_index_on_set(id, &prop_key, &value);
+        #[cfg(grafeo_verif)]
+        grafeo_common::verif::yield_point("store.set_prop.after_index");
 
         self.node_properties.set(id, prop_key, value);
 
@@ -1404,6 +1412,8 @@ impl LpgStore {
 
         label_set.insert(label_id);
         drop(node_labels);
+        #[cfg(grafeo_verif)]
+        grafeo_common::verif::yield_point("store.add_label.after_node_labels");
 
         // Add to label_index
         let mut index = self.label_index.write();
@@ -1685,6 +1695,8 @@ impl LpgStore {
         let record = EdgeRecord::new(id, src, dst, type_id, epoch);
         let chain = VersionChain::with_initial(record, epoch, tx_id);
         self.edges.write().insert(id, chain);
+        #[cfg(grafeo_verif)]
+        grafeo_common::verif::yield_point("store.create_edge.after_primary");
 
         // Update adjacency
         self.forward_adj.add_edge(src, dst, id);
